@@ -60,7 +60,32 @@ pub fn permute_file(file: &GFile, perm: &[usize]) -> GFile {
 ///    accepted, every order must still give the same outcome.
 fn family(rng: &mut Rng) -> (Vec<String>, &'static str) {
     const VALUES: &[&str] = &["#null", "1", "2", "\"a\"", "#true", "[]", "[1]", "@m", "(source-text @m)", "#null", "1"];
-    if rng.chance(1, 2) {
+    let which = rng.below(6);
+    if which == 4 {
+        // two definitions of one scoped variable on one node (with or without `inherit`): a
+        // duplicate in every order
+        let inherit = rng.chance(1, 2);
+        let v1 = *rng.pick(VALUES);
+        let v2 = if rng.chance(1, 4) { v1 } else { *rng.pick(VALUES) };
+        let mut st = Vec::new();
+        st.push(format!("(module) @m {{ let @m.zz_x = {} }}", v1));
+        st.push(format!("(module) @m {{ let @m.zz_x = {} }}", v2));
+        st.push("(module (_) @c) { node n attr (n) seen = @c.zz_x }".to_string());
+        let header = if inherit { "inherit .zz_x\n" } else { "" };
+        // the header must stay first: glue it to every stanza list through a marker stanza
+        let st: Vec<String> = st;
+        return (std::iter::once(format!("__HEADER__{}", header)).chain(st.into_iter()).collect(), if inherit { "duplicate_inherited_scoped_variable" } else { "duplicate_scoped_variable" });
+    }
+    if which == 5 {
+        // an attribute shorthand applied to a scoped variable that a later stanza defines
+        let st = vec![
+            "(module) @m { let @m.zz_name = \"x\" }".to_string(),
+            "(module) @m { node n attr (n) zz_tag = @m.zz_name }".to_string(),
+            "(module) @m { node k attr (k) zz_tag = (source-text @m) }".to_string(),
+        ];
+        return (std::iter::once("__HEADER__attribute zz_tag = v => zz_t = v, zz_len = [v]\n".to_string()).chain(st.into_iter()).collect(), "shorthand_on_forward_scoped_variable");
+    }
+    if which < 2 {
         let k = 2 + rng.below(2);
         let on_edge = rng.chance(1, 3);
         let mut st = vec!["(module) @m { node @m.zz_a node @m.zz_b }".to_string()];
@@ -92,15 +117,19 @@ fn family(rng: &mut Rng) -> (Vec<String>, &'static str) {
 }
 
 fn run_family(rng: &mut Rng, out: &mut Out) {
-    let (stanzas, name) = family(rng);
-    let source = "pass\n";
+    let (mut stanzas, name) = family(rng);
+    let mut header = String::new();
+    if stanzas[0].starts_with("__HEADER__") {
+        header = stanzas.remove(0)["__HEADER__".len()..].to_string();
+    }
+    let source = if rng.chance(1, 2) { "pass\n" } else { "x = 1\ny = 2\n" };
     let tree = parse_python(source);
     let ti = TreeInfo::new(&tree);
     let functions = stdlib();
     let globals = std::collections::BTreeMap::new();
     let mut reference: Option<(Real, String)> = None;
     for perm in permutations(stanzas.len()) {
-        let text: String = perm.iter().map(|i| stanzas[*i].as_str()).collect::<Vec<_>>().join("\n");
+        let text: String = format!("{}{}", header, perm.iter().map(|i| stanzas[*i].as_str()).collect::<Vec<_>>().join("\n"));
         let file = match exec::load(&text) {
             Loaded::Ok(f) => f,
             Loaded::Err(_) => {
